@@ -166,6 +166,10 @@ func runWorker(t *testing.T) {
 			if !failing && !time.Now().Before(deadline) {
 				return // budget exhausted: remaining checks are no-ops
 			}
+			if *fOut != "" {
+				// if badger aborts the process inside this run, the parent finds the case here
+				_ = os.WriteFile(*fOut+".cur", c.JSON(), 0o644)
+			}
 			out := execCase(t, s, c, false)
 			if failing {
 				st.ShrinkRuns++
@@ -428,8 +432,22 @@ func runOrchestrate(t *testing.T) {
 	agg := &WorkerStats{Prop: s.Prop, Seed: *fSeed, Probes: map[string]uint64{}, Known: map[string]uint64{}}
 	digests := map[uint64]bool{}
 	trouble := false
+	type abortedCase struct{ path, log string }
+	var aborted []abortedCase
 	for i, r := range results {
 		if r.st == nil {
+			cur := filepath.Join(tmp, fmt.Sprintf("w%d.json.cur", i))
+			if _, err := os.Stat(cur); err == nil && !strings.Contains(r.log, "WATCHDOG") {
+				// the process died inside a run (panic / log.Fatal in badger): keep the case
+				b, _ := os.ReadFile(cur)
+				h := sha256.Sum256(b)
+				dir := filepath.Join(*fVerifDir, "replays")
+				os.MkdirAll(dir, 0o755)
+				path := filepath.Join(dir, fmt.Sprintf("%s-abort-%s.json", s.Prop, hex.EncodeToString(h[:4])))
+				os.WriteFile(path, b, 0o644)
+				aborted = append(aborted, abortedCase{path: path, log: tail(r.log, 3000)})
+				continue
+			}
 			fmt.Fprintf(os.Stderr, "worker %d produced no stats (err=%v):\n%s\n", i, r.err, tail(r.log, 4000))
 			trouble = true
 			continue
@@ -504,7 +522,7 @@ func runOrchestrate(t *testing.T) {
 		if ee, ok := err.(*exec.ExitError); ok {
 			code = ee.ExitCode()
 		}
-		still := code == 1 && (strings.Contains(string(b), "REPLAY-VIOLATION") || strings.Contains(string(b), k.Match))
+		still := code != 0 && code != 3 && (strings.Contains(string(b), "REPLAY-VIOLATION") || strings.Contains(string(b), strings.TrimSpace(strings.Split(k.Match, "&&")[0])))
 		if still && !knownHit[k.What] {
 			fmt.Printf("KNOWN-FINDING: property=%s %s (probe %s still triggers it)\n", s.Prop, k.What, k.Probe)
 			knownHit[k.What] = true
@@ -529,6 +547,41 @@ func runOrchestrate(t *testing.T) {
 			fmt.Fprintf(os.Stderr, "violation did not replay in a fresh process (exit %d): %s\n%s\n", code, v.Viol.String(), tail(string(b), 2000))
 			trouble = true
 		}
+	}
+	// cases in which the worker process died: confirm by replaying in a fresh process
+	for _, a := range aborted {
+		cmd := exec.Command(self, "-test.run", "^TestSim$", "-test.timeout", "0", "-mode", "replay", "-replay", a.path, "-prop", s.Prop, "-verifdir", *fVerifDir)
+		b, err := cmd.CombinedOutput()
+		code := 0
+		if ee, ok := err.(*exec.ExitError); ok {
+			code = ee.ExitCode()
+		}
+		out := string(b)
+		died := code != 0 && code != 1 && code != 3 || strings.Contains(out, "Assert failed") || strings.Contains(out, "\npanic:") || strings.HasPrefix(out, "panic:")
+		if !died || strings.Contains(out, "WATCHDOG") {
+			fmt.Fprintf(os.Stderr, "a worker process died but its last case does not abort on replay (exit %d):\n%s\n", code, tail(a.log, 1500))
+			trouble = true
+			continue
+		}
+		msg := firstLine(out)
+		for _, l := range strings.Split(out, "\n") {
+			if strings.HasPrefix(l, "panic:") || strings.Contains(l, "Assert failed") || strings.HasPrefix(l, "fatal error:") {
+				msg = l
+				break
+			}
+		}
+		v := Violation{Props: []string{s.Prop}, Rule: "process-abort", Msg: "badger aborted the process: " + msg}
+		if k := matchKnown(s.Prop, &v); k != nil {
+			if !knownHit[k.What] {
+				fmt.Printf("KNOWN-FINDING: property=%s %s\n", s.Prop, k.What)
+				knownHit[k.What] = true
+			}
+			continue
+		}
+		fmt.Printf("VIOLATION property=%s replay=%s\n", s.Prop, a.path)
+		fmt.Printf("  rule=process-abort: %s\n", msg)
+		nviol++
+		exit = 1
 	}
 	for _, v := range other {
 		fmt.Printf("NOTE: a rule of another property fired during this check: %s\n", firstLine(v.Viol.String()))
